@@ -152,6 +152,15 @@ def _case(draw):
         scal = [k for k, v in cur['items'] if v['t'] == 'sc']
         if what == 'clear' and conts:
             case['key'] = conts[draw(st.integers(0, len(conts) - 1))]
+            # !clear is unconditional: protected (!force) entries below the target go too, also when the !clear is !weak, and
+            # also when an earlier stage had put an explicit !del container there (three-document history)
+            case['clear_weak'] = draw(st.integers(0, 3)) == 0
+            case['mid_del'] = draw(st.integers(0, 2)) == 0
+            tgt = [v for kk, v in cur['items'] if kk == case['key'] and type(kk) is type(case['key'])][0]
+            if draw(st.integers(0, 1)) == 0:
+                leaves = [n for p_, n in tdoc.walk(tgt) if p_ and n['t'] == 'sc']
+                if leaves:
+                    leaves[draw(st.integers(0, len(leaves) - 1))]['prio'] = 1
         elif what == 'clear-scalar' and scal:
             case['key'] = scal[draw(st.integers(0, len(scal) - 1))]
         elif what == 'vdel':
@@ -422,8 +431,17 @@ def run_case(case):
                 labels.add('c-%s-onto-%s' % (focus['t'], type(old_at).__name__))
     else:
         what, key = case['what'], case['key']
+        mid_text = ''
         if what.startswith('clear'):
             node = tdoc.empty(tag='!clear')
+            if case.get('clear_weak'):
+                node['prio'] = -1
+                node['mdstyle'] = 'braces'
+            if what == 'clear' and case.get('mid_del'):
+                tgt_kind = _get(older, path + [key])['t']
+                midn = tdoc.mp([('zq', tdoc.sc(1))], flow=True, **{'del': True}) if tgt_kind == 'map' else tdoc.sq([tdoc.sc(7)], flow=True, **{'del': True})
+                mid_text = tdoc.render(_wrap(path + [key], midn))
+                labels.add('d-clear-after-explicit-del-stage')
         else:
             node = tdoc.empty(**{'del': True}) if case.get('del_form', 'valueless') == 'valueless' else tdoc.sc(5, **{'del': True})
             if case.get('del_weak'):
@@ -437,8 +455,8 @@ def run_case(case):
                 old_ev = ev(older)
         newer = _wrap(path + [key], node)
         t_new = tdoc.render(newer)
-        src = f'\nolder:\n{t_old}\nnewer:\n{t_new}'
-        status, got = _build([t_old, t_new])
+        src = f'\nolder:\n{t_old}{mid_text}\nnewer:\n{t_new}'
+        status, got = _build([t_old + mid_text, t_new])
         labels.add('d-' + what)
         if what == 'clear':
             tgt = _get(older, path + [key])
